@@ -1,3 +1,106 @@
+(* Property C04: run-time safety checks fire exactly when an operation is invalid.
+   Only the property theorems, each closed by [exact] of a lemma of Proofs*.v and followed by
+   Print Assumptions.  The model (Model.v) generates the C helpers as Base.CInt mini-C terms;
+   C04_helpers_are_the_emitted_ones ties them to the C the real compiler generated on this run. *)
 From Base Require Import CInt.
-From C04 Require Import Gen Model Proofs.
+From C04 Require Import Gen Model ProofsNarrow Proofs.
 Local Open Scope Z_scope.
+
+(* (T) every helper found in the generated C is, term for term, the one the model generates,
+   every literal in it is in the range of its C type; the compiler's is_type_inrange table is
+   the model's; a helper is emitted exactly for the pairs that need one; the flags of the
+   add_converted_val call sites and the library guards are the ones the model assumes *)
+Theorem C04_helpers_are_the_emitted_ones :
+  (forall s d f, In (s, d, f) narrow_table -> narrow_fn s d = Some f /\ cfun_ok f = true) /\
+  (forall t f, In (t, f) bounds_table -> Some (bounds_fn t) = Some f /\ cfun_ok f = true) /\
+  (forall t f, In (t, f) idiv_table -> Some (idiv_fn t true) = Some f /\ cfun_ok f = true) /\
+  (forall t f, In (t, f) imod_table -> Some (imod_fn t true) = Some f /\ cfun_ok f = true) /\
+  deref_fn = deref_emitted /\
+  (forall d s b, In (d, s, b) inrange_table -> needs_check d s = negb b) /\
+  conv_sites = expected_sites /\
+  (guard_span_at = lib_guard SpanAt /\ guard_vector_at = lib_guard VecAt /\
+   guard_vector_insert = lib_guard VecInsert /\ guard_vector_remove = lib_guard VecRemove /\
+   guard_vector_pop = lib_guard VecPop /\ guard_sequence_at = lib_guard SeqAt /\
+   guard_sequence_insert = lib_guard SeqInsert /\ guard_sequence_remove = lib_guard SeqRemove /\
+   guard_sequence_pop = lib_guard SeqPop /\ guard_string_at = lib_guard StrAt /\
+   Some guard_sequence_at_pre = lib_pre SeqAt).
+Proof. exact helpers_tie. Qed.
+Print Assumptions C04_helpers_are_the_emitted_ones.
+
+(* narrow_fires_iff (+ value preserved): for every pair of integer types and every value of the
+   source type, in every C mode, the emitted helper stops with "narrow casting" iff the
+   destination cannot represent the value, and returns the value unchanged otherwise *)
+Theorem C04_narrow_fires_iff : forall m s d f x,
+  wf_ity s -> wf_ity d -> narrow_fn s d = Some f -> in_range s x ->
+  ccall m f [x] = if in_rangeb d x then Oval x else Opanic MSG_NARROW.
+Proof. exact narrow_fn_correct. Qed.
+Print Assumptions C04_narrow_fires_iff.
+
+(* no_check_sound (and complete): the compiler omits the check exactly when every value of the
+   source type is representable in the destination *)
+Theorem C04_no_check_sound : forall d s, wf_ity d -> wf_ity s ->
+  (needs_check d s = false <-> forall x, in_range s x -> in_range d x).
+Proof. exact no_check_sound. Qed.
+Print Assumptions C04_no_check_sound.
+
+(* an implicit conversion at a checked site is exact: value kept or program stopped *)
+Theorem C04_implicit_conversion_exact : forall m st s d x,
+  wf_ity s -> wf_ity d -> in_range s x -> site_checked st = true ->
+  convert_at m st s d x = if in_rangeb d x then Oval x else Opanic MSG_NARROW.
+Proof. exact convert_at_correct. Qed.
+Print Assumptions C04_implicit_conversion_exact.
+
+(* full strength "every implicit conversion site is checked" is false on the unchanged tree *)
+Theorem C04_all_sites_checked_refuted : ~ all_implicit_sites_checked.
+Proof. exact sites_refuted. Qed.
+Print Assumptions C04_all_sites_checked_refuted.
+
+(* ... the sites that are not: single-value return without pending defer, initializer lists *)
+Theorem C04_all_sites_checked_partial : forall st, site_implicit st = true ->
+  site_checked st = negb (unchecked_today st).
+Proof. exact sites_partial. Qed.
+Print Assumptions C04_all_sites_checked_partial.
+
+(* at those sites the value is silently wrapped *)
+Theorem C04_unchecked_site_wraps : forall st s d x, wf_ity d -> site_checked st = false ->
+  convert_at Gnu st s d x = Oval (wrap d x).
+Proof. exact convert_at_unchecked. Qed.
+Print Assumptions C04_unchecked_site_wraps.
+
+(* bounds_fires_iff: for every index type, every index value, every length below 2^64 *)
+Theorem C04_bounds_fires_iff : forall m t len i, wf_ity t -> in_range t i -> in_range USIZE len ->
+  array_index m t len i = if (0 <=? i) && (i <? len) then Oval i else Opanic MSG_BOUNDS.
+Proof. exact array_index_correct. Qed.
+Print Assumptions C04_bounds_fires_iff.
+
+Theorem C04_deref_fires_iff : forall m p, in_range U64 p ->
+  ccall m deref_fn [p] = if p =? 0 then Opanic MSG_DEREF else Oval p.
+Proof. exact deref_fn_correct. Qed.
+Print Assumptions C04_deref_fires_iff.
+
+(* idiv_check_iff: "division by zero" iff b = 0; otherwise Lua's floor division / modulo
+   (gcc/clang semantics: the b = -1 shortcut relies on modular conversion to the signed type) *)
+Theorem C04_idiv_check_iff : forall t a b, wf_ity t -> sgn t = true -> in_range t a -> in_range t b ->
+  ccall Gnu (idiv_fn t true) [a; b] = if b =? 0 then Opanic MSG_DIVZERO else Oval (wrap t (a / b)).
+Proof. exact idiv_fn_correct. Qed.
+Print Assumptions C04_idiv_check_iff.
+
+Theorem C04_imod_check_iff : forall t a b, wf_ity t -> sgn t = true -> in_range t a -> in_range t b ->
+  ccall Gnu (imod_fn t true) [a; b] = if b =? 0 then Opanic MSG_DIVZERO else Oval (a mod b).
+Proof. exact imod_fn_correct. Qed.
+Print Assumptions C04_imod_check_iff.
+
+(* cast_wraps: explicit casts never trap; in gnu mode they are total and modular *)
+Theorem C04_cast_wraps : forall d x, wf_ity d -> explicit_cast Gnu d x = Oval (wrap d x).
+Proof. exact cast_wraps. Qed.
+Print Assumptions C04_cast_wraps.
+
+(* lib_guard_iff: span/vector/sequence/string accessors called with an index of any integer
+   type stop the program iff the position is invalid (exact integers), for every size < 2^64 - 1 *)
+Theorem C04_lib_guard_iff : forall m op idx i size impl,
+  wf_ity idx -> in_range idx i -> in_range USIZE size -> in_range U64 impl -> size + 1 <= tmax USIZE ->
+  lib_access m op idx i size impl =
+    if i <? 0 then Opanic MSG_NARROW
+    else if lib_valid op i size impl then Oval 0 else Opanic MSG_LIB.
+Proof. exact lib_access_correct. Qed.
+Print Assumptions C04_lib_guard_iff.
